@@ -463,7 +463,10 @@ def run_shadow(prop, tier, seed, groups):
              "universe (both sides) concretised through address windows, port maps (1..3 -> real ports incl. 1 and "
              "65535) and spellings on both platforms, plus seeded random full-size pairs where the bottom is derived "
              "from the top by narrowing / widening one field (protocol incl. unnamed numbers, wildcard bits, port "
-             "expression incl. empty ones, flag subsets); non-trivial = bottom text differs from top; distinct = "
+             "expression incl. empty ones and operand 0, flag subsets); entries built again (copy / data / line re-assigned) or "
+             "with a port expression cleared between queries; crossed pairs (both addresses of the bottom are groups); groups "
+             "of neighbouring blocks; same group name with other members; pairs taken from acls() on configurations with "
+             "nested groups; non-trivial = bottom text differs from top; distinct = "
              "distinct (platform, texts, members, edits)",
         samples=[dict(job=jobs[i], events=ev_lists[i]) for i in (0, len(jobs) // 2, len(jobs) - 1)],
         model_checking=mcs, generation=gens, trace_validation=vstats, exhaustive=False,
